@@ -5,6 +5,7 @@ import (
 	"fmt"
 	"math/rand"
 	"net"
+	"runtime"
 	"testing"
 	"time"
 
@@ -40,6 +41,7 @@ type fuzzGen struct {
 	w     *sim.World
 	att   *sim.RawClient
 	peers []*net.UDPAddr
+	mtu   int
 }
 
 func (g *fuzzGen) tid() (tid [12]byte) {
@@ -162,7 +164,39 @@ func (g *fuzzGen) mutate(raw []byte) []byte {
 	return b
 }
 
+// sized builds a well-formed frame whose total size sits at a buffer boundary: the configured
+// inbound MTU, the default 1600, or just beside them.
+func (g *fuzzGen) sized() []byte {
+	mtu := g.mtu
+	if mtu == 0 {
+		mtu = 1600
+	}
+	total := pick(g.rng, []int{mtu - 4, mtu - 1, mtu, mtu + 1, mtu + 4, mtu + 100, (mtu + 1600) / 2, 1596, 1599, 1600, 1601, 1604, 2000})
+	if total < 24 {
+		total = 24
+	}
+	if total > 60000 {
+		total = 60000
+	}
+	if g.rng.Intn(2) == 0 {
+		return wire.EncodeChannelData(uint16(0x4000+g.rng.Intn(0x4000)), make([]byte, (total-4)&^3), true)
+	}
+	p := pick(g.rng, g.peers)
+	b := wire.NewBuilder(wire.MethodSend, wire.ClassIndication, g.tid())
+	b.AddXorAddr(wire.AttrXORPeerAddress, p.IP, p.Port)
+	n := total - 20 - 4 - len(wire.EncodeXorAddr(p.IP, p.Port, [12]byte{}, false)) - 4
+	if n < 0 {
+		n = 0
+	}
+	b.Add(wire.AttrData, make([]byte, n&^3))
+
+	return b.Bytes()
+}
+
 func (g *fuzzGen) input() ([]byte, string) {
+	if g.rng.Intn(10) == 0 {
+		return g.sized(), "sized-near-buffer"
+	}
 	switch g.rng.Intn(12) {
 	case 0: // pure random
 		b := make([]byte, g.rng.Intn(120))
@@ -219,6 +253,7 @@ func runC09Server(t *testing.T, rng *rand.Rand, rec *sim.Rec, tier string, caseN
 		Realm: "verif.test", Users: map[string]string{"alice": "pw-a", "mallory": "pw-m"},
 		UDPListeners: []*net.UDPAddr{{IP: sim.ServerIP4, Port: 3478}},
 		TCPListeners: []*net.TCPAddr{{IP: sim.ServerIP4, Port: 3478}},
+		InboundMTU:   pick(rng, []int{0, 0, 512, 1000, 1200, 9000}),
 	}
 	w, err := sim.NewWorld(cfg, rec, rng, true)
 	if err != nil {
@@ -267,7 +302,7 @@ func runC09Server(t *testing.T, rng *rand.Rand, rec *sim.Rec, tier string, caseN
 		return c
 	}
 	att = newAttacker()
-	g := &fuzzGen{rng: rng, w: w, att: att, peers: []*net.UDPAddr{p1.Addr, p2.Addr, {IP: net.IPv4(10, 2, 0, 9).To4(), Port: 9}, {IP: net.ParseIP("fd00:2::1"), Port: 7}}}
+	g := &fuzzGen{rng: rng, w: w, att: att, mtu: cfg.InboundMTU, peers: []*net.UDPAddr{p1.Addr, p2.Addr, {IP: net.IPv4(10, 2, 0, 9).To4(), Port: 9}, {IP: net.ParseIP("fd00:2::1"), Port: 7}}}
 	if rng.Intn(2) == 0 {
 		// attacker has an allocation of its own, so that authenticated inputs reach allocation code
 		att.Allocate(sim.AllocOpts{})
@@ -362,7 +397,7 @@ func runC09Server(t *testing.T, rng *rand.Rand, rec *sim.Rec, tier string, caseN
 		w.Sleep(time.Duration(rng.Intn(20)) * time.Second)
 		m.Audit(nil)
 	}
-	rec.SetSample(map[string]any{"transport": transportName(overTCP), "inputs": batches * perBatch, "log_calls": w.Log.TotalCalls()})
+	rec.SetSample(map[string]any{"transport": transportName(overTCP), "inbound_mtu": cfg.InboundMTU, "inputs": batches * perBatch, "log_calls": w.Log.TotalCalls()})
 }
 
 func lenBucket(n int) string {
@@ -489,6 +524,9 @@ func runC09Client(t *testing.T, rng *rand.Rand, rec *sim.Rec, tier string, caseN
 			if rng.Intn(2) == 0 {
 				// through the socket (the client's own read loop)
 				rc.Conn.Inject(in, from)
+				if !clientLocksFree(rec, rc, "socket input "+class) {
+					return
+				}
 
 				continue
 			}
@@ -502,6 +540,9 @@ func runC09Client(t *testing.T, rng *rand.Rand, rec *sim.Rec, tier string, caseN
 				h, err := rc.Client.HandleInbound(in, from)
 				done <- res{h, err}
 			}()
+			if !clientLocksFree(rec, rc, "HandleInbound "+class) {
+				return
+			}
 			synctest.Wait()
 			select {
 			case r := <-done:
@@ -542,4 +583,25 @@ func runC09Client(t *testing.T, rng *rand.Rand, rec *sim.Rec, tier string, caseN
 		_ = tcpAlloc.Close()
 	}
 	rec.SetSample(map[string]any{"side": "client", "state": state, "log_calls": logs.TotalCalls()})
+}
+
+// clientLocksFree probes the client's mutexes without needing virtual time to pass: the read loop
+// and timers hold them only for microseconds, so a mutex that is still held after yielding the
+// processor a few hundred times has been leaked. (Waiting on the virtual clock instead would hang:
+// a goroutine queued on that mutex is not durably blocked.)
+func clientLocksFree(rec *sim.Rec, rc *sim.RealClient, when string) bool {
+	var held []string
+	for try := 0; try < 400; try++ {
+		// the number of yields grows: under heavy machine load a preempted lock holder may need
+		// milliseconds of wall time (which the bubble cannot measure) to be scheduled again
+		for i := 0; i < 50+try*50; i++ {
+			runtime.Gosched()
+		}
+		if held = rc.Client.VerifLocksHeld(); len(held) == 0 {
+			return true
+		}
+	}
+	rec.Violate("lock-held", "client/"+held[0], "client mutex still held after %s: %v", when, held)
+
+	return false
 }
